@@ -18,4 +18,28 @@ TIES = {
         shapes=["rscp_Message_validate", "rscp_Message_size", "rscp_messagesWideSize", "rscp_validateRequest",
                 "rscp_validateRequests", "rscp_DataType_isValidValue", "rscp_DataType_length", "rscp_Tag_isRequest"],
         leaves=["validate_tooLong", "validateRequests_tooLong", "size_isVariable", "isRequest"]),
+    "Client": dict(
+        doc="The client state machine (client.go) as Model/Client.lean, Model/Receive.lean and Model/Session.lean follow it.",
+        shapes=["rscp_NewClient", "rscp_Client_resetCipher", "rscp_Client_send", "rscp_Client_receive", "rscp_Client_connect",
+                "rscp_Client_authenticate", "rscp_Client_Disconnect", "rscp_Client_Send", "rscp_Client_SendMultiple",
+                "rscp_CreateRequest", "rscp_readRequestSlice", "rscp_readRequestSliceReader"],
+        leaves=["authenticate_hideLog"]),
+    "Crypt": dict(
+        doc="Key and IV construction (crypt.go) as Model/Crypt.lean follows it.",
+        shapes=["rscp_createAESKey", "rscp_newIV"]),
+    "Config": dict(
+        doc="ClientConfig.check (client_config.go) as Model/Config.lean follows it.",
+        shapes=["rscp_ClientConfig_check", "rscp_NewClient"],
+        leaves=["check_noAddress", "check_noUsername", "check_noPassword", "check_noKey", "check_anyMissing", "check_heartbeatUnset",
+                "check_portUnset", "check_connTimeoutUnset", "check_sendTimeoutUnset", "check_recvTimeoutUnset", "check_bufBlocksUnset"]),
+    "Builder": dict(
+        doc="The request builder (request.go, read_request_slice.go) as Model/Builder.lean follows it.",
+        shapes=["rscp_CreateRequest", "rscp_CreateRequests", "rscp_readRequestSlice", "rscp_readRequestSliceReader", "rscp_NewMessage", "rscp_Tag_DataType"]),
+    "Vocab": dict(
+        doc="Vocabulary functions as Model/Vocab.lean follows them.",
+        shapes=["rscp_Tag_String", "rscp_TagString", "rscp_TagValues", "rscp_Tag_IsATag", "rscp_Tag_DataType", "rscp_Tag_MarshalJSON",
+                "rscp_Tag_UnmarshalJSON", "rscp_Tag_isRequest", "rscp_Tag_isResponse", "rscp_DataType_String", "rscp_DataTypeString",
+                "rscp_DataType_IsADataType", "rscp_DataType_MarshalJSON", "rscp_DataType_UnmarshalJSON", "rscp_DataType_length",
+                "rscp_DataType_newEmpty", "rscp_DataType_new", "rscp_DataType_isValidValue"],
+        leaves=["isRequest", "isResponse"]),
 }
